@@ -141,24 +141,38 @@ Definition lang_format (cfg : config F) (lang : str) : option langformat :=
   | None => assoc (s "en") (cf_format cfg)
   end.
 
-Definition dur_step (fmt : langformat) (acc : str * Z) (unit : Z) (ph : string) (k : durkind) : str * Z :=
-  let '(buf, d) := acc in
-  if unit <=? d then (buf ++ duration_formatter fmt (s ph) (d / unit) k, d mod unit) else acc.
+(* the greedy decomposition of DurationItem::print (duration.rs:153-193): year, month, week,
+   day, hour, minute with `>=` tests, then the remaining seconds when positive *)
+Definition dur_unit (k : durkind) : Z :=
+  match k with
+  | DYear => YEAR | DMonth => MONTH | DWeek => WEEK | DDay => DAY
+  | DHour => HOUR | DMinute => MINUTE | DSecond => 1
+  end.
+
+Definition dur_placeholder (k : durkind) : str :=
+  match k with
+  | DYear => s "{year}" | DMonth => s "{month}" | DWeek => s "{week}" | DDay => s "{day}"
+  | DHour => s "{hour}" | DMinute => s "{minute}" | DSecond => s "{second}"
+  end.
+
+Fixpoint dur_parts_from (ks : list durkind) (d : Z) : list (durkind * Z) * Z :=
+  match ks with
+  | [] => ([], d)
+  | k :: r =>
+    if dur_unit k <=? d
+    then let '(ps, rest) := dur_parts_from r (d mod dur_unit k) in ((k, d / dur_unit k) :: ps, rest)
+    else dur_parts_from r d
+  end.
+
+Definition dur_parts (secs : Z) : list (durkind * Z) :=
+  let '(ps, rest) := dur_parts_from [DYear; DMonth; DWeek; DDay; DHour; DMinute] (Z.abs secs) in
+  ps ++ (if 0 <? rest then [(DSecond, rest)] else []).
 
 Definition duration_print (cfg : config F) (lang : str) (secs : Z) : str :=
   match lang_format cfg lang with
   | None => []
   | Some fmt =>
-    let d := Z.abs secs in
-    let a := dur_step fmt ([], d) YEAR "{year}" DYear in
-    let a := dur_step fmt a MONTH "{month}" DMonth in
-    let a := dur_step fmt a WEEK "{week}" DWeek in
-    let a := dur_step fmt a DAY "{day}" DDay in
-    let a := dur_step fmt a HOUR "{hour}" DHour in
-    let a := dur_step fmt a MINUTE "{minute}" DMinute in
-    let '(buf, d) := a in
-    let buf := if 0 <? d then buf ++ duration_formatter fmt (s "{second}") d DSecond else buf in
-    trim buf
+    trim (flat_map (fun p => duration_formatter fmt (dur_placeholder (fst p)) (snd p) (fst p)) (dur_parts secs))
   end.
 
 (* ---------- dates ---------- *)
